@@ -1,18 +1,18 @@
 /* C03: real parallel_for / parallel_deterministic_reduce (simple_partitioner, one leaf task per element) on the real dispatcher
  * loop, one model thread.  ALGO 1: parallel_for over [0,N)   ALGO 2: parallel_deterministic_reduce   ALGO 3: parallel_reduce
  * Which element's body invocation throws is symbolic (THROW mask: every subset of the N elements). */
-#define NTASKMEM 16
+#define NTASKMEM 32
 #include "w.h"
 #include "vp.h"
 #include "h_stubs.h"
 #define VP_CHECK(c, msg) do { VP_ASSERT(c, msg); __CPROVER_assume(c); } while (0)
 
 u32 THROW; u8 ti_user;
-int runs[8]; int nthrown; u8* thrown0; u8* caught_at_wait; int captured; int wait_seen, wait_threw;
+int runs[16]; int nthrown; u8* thrown0; u8* caught_at_wait; int captured; int wait_seen, wait_threw;
 int n_released;                 /* wait_context reached zero (r1::notify_waiters is cut: nobody sleeps in the one-thread world) */
 void _ZN3tbb6detail2r114notify_waitersEm(u64 wait_ctx_addr) { n_released++; }
 /* life cycle of Range (kind 0) and Body (kind 1) objects, keyed by address */
-#define MAXLIVE 24
+#define MAXLIVE 40
 u8* live_at[2][MAXLIVE]; int n_live[2], n_ctor[2], n_dtor[2], n_split[2];
 void vp_obj_ctor(u32 kind, u8* at, u32 how) {
   VP_CHECK(kind < 2, "VP: kind");
@@ -59,7 +59,7 @@ void vp_wait_result(u32 g, u32 st, u32 threw, u32 unused) {
   VP_ASSERT(n_live[0] == 1 && n_live[1] == 1, "library-made Range/Body copies still alive (or the user's objects destroyed) when the call returned");
 }
 int main(void) {
-  THROW = (u32)vp_nd_range(0, 255) & ((1u << N) - 1);      /* which elements' body invocations throw: every subset */
+  THROW = (u32)vp_nd_range(0, 65535) & ((1u << N) - 1);      /* which elements' body invocations throw: every subset */
   vp_world_setup();
 #if ALGO == 1
   vp_pfor(N);
